@@ -191,6 +191,28 @@ def rules(P, R, prefix="C11"):
                     doms = env.flow(ps).dominators(s_)
                     R.judge(any(d is n for d in doms) and any(d["k"] == "await" and d["e"] is n for d in doms), prefix + ".B4",
                             key(ps, "write awaited before the digest is announced" + tag, j), s_["sp"], "", "the digest is announced before store.write completed")
+            # "every batch, own or received, is stored and announced": both happen on every iteration of the receive loop
+            wl = next((n for n in ps.nodes() if n["k"] in ("while", "loop")), None)
+            if R.judge(wl is not None, prefix + ".B4", key(ps, "receive loop found" + tag), ps.sp, "", "no receive loop in Processor::spawn (undecidable-shape)"):
+                from ..common import inner_cond
+                from ..analysis import T as _T, show as _show
+                exits = [x for x in ir.walk(wl["body"], into_closures=False) if x["k"] in ("break", "ret")]
+                R.judge(not exits, prefix + ".B4", key(ps, "receive loop has no exit" + tag), wl["sp"], "",
+                        "the Processor leaves its loop at %s: later batches are neither stored nor announced" % [x["sp"] for x in exits])
+                # (facts of the form "this unwrap()/expect() did not panic" are not conditions: the panic sites are C15's)
+                from ..analysis import strip_ok_wrappers, atoms_of as _atoms, And as _And
+                unwrapped = set()
+                for x in ps.nodes():
+                    if x["k"] == "mcall" and x["name"] in ("unwrap", "expect"):
+                        t_ = pc_.term(strip_ok_wrappers(x["recv"]))
+                        unwrapped |= {"ok(%s)" % t_, "some(%s)" % t_}
+                for what, nodes in (("stored", wr), ("announced", sd)):
+                    for i, n in enumerate(nodes):
+                        ic = inner_cond(env.flow(ps), n, wl["body"])
+                        cj = ic[1] if ic[0] == "and" else [ic]
+                        ic = _And(*[c for c in cj if not (c[0] == "atom" and c[1] in unwrapped)])
+                        R.judge(ic == _T, prefix + ".B4", key(ps, "every received batch is %s%s" % (what, tag), i), n["sp"], "",
+                                "a batch is %s only under `%s`: some batches (own or received) are dropped by the Processor" % (what, _show(ic)))
         # peer path: received frame forwarded unchanged
         mh = [f for f in prog.fns.values() if f.trait == "network::receiver::MessageHandler" and f.name == "dispatch" and "MempoolReceiverHandler" in f.path]
         if R.judge(len(mh) == 1, prefix + ".B4", "anchor MempoolReceiverHandler::dispatch" + tag, "", "", "anchor-missing", reason="anchor-missing"):
@@ -257,3 +279,7 @@ def check(P, R, tier):
     R.assumptions = ["bincode serialisation of Vec<Vec<u8>> is order preserving and byte-faithful", "tokio mpsc is FIFO (arrival order = channel order)",
                      "when the seal timer fires is timing and not decided"]
     rules(P, R)
+    # "every transaction a node accepts from a client - any byte string, including an empty one": a client transaction is a
+    # frame on the transactions socket, so the shared network Receiver must hand EVERY frame, in order, to the handler (C14.F7)
+    from ..common import fold
+    fold(R, P, "c14", ("C14.F7",), "C11.B7", 10)
